@@ -28,7 +28,43 @@ def amb_claim(a, o):
                Implies(And(Not(in_gap), Not(in_fold)), And(kind == 0, before == If(in_dst, DST, STD), after == before)))
 
 
+def rule_claim(std, dst, sm, sn, st, em, en, et):
+    """general (non-wrapping) rule: start = sn-th Sunday of month sm at local standard time st,
+    end = en-th Sunday of month em at local daylight time et; diff = dst - std of either sign"""
+    diff = dst - std
+
+    def claim(a, o):
+        y, m, d, h, mi, s, ns = a
+        L = ref_epoch_day(y, m, d) * 86400 + (h * 60 + mi) * 60 + s
+        S = c03.nth_sunday(y, sm, sn) * 86400 + st
+        E = c03.nth_sunday(y, em, en) * 86400 + et
+        if diff > 0:
+            gap = And(S <= L, L < S + diff)
+            fold = And(E - diff <= L, L < E)
+            in_dst = And(S + diff <= L, L < E - diff)
+            gap_ba, fold_ba = (std, dst), (dst, std)
+        else:
+            fold = And(S + diff <= L, L < S)
+            gap = And(E <= L, L < E - diff)
+            in_dst = And(S <= L, L < E)
+            gap_ba, fold_ba = (dst, std), (std, dst)
+        kind, before, after = o[0].i, o[1].i, o[2].i
+        return And(Implies(gap, And(kind == 1, before == gap_ba[0], after == gap_ba[1])),
+                   Implies(fold, And(kind == 2, before == fold_ba[0], after == fold_ba[1])),
+                   Implies(And(Not(gap), Not(fold)), And(kind == 0, before == If(in_dst, dst, std), after == before)))
+    return claim
+
+
+_PRE = lambda a: And(ref_valid_date(a[0], a[1], a[2]), ref_valid_time(a[3], a[4], a[5], a[6]), in_range(a[0], 1900, 2100))
+_B = {0: (1900, 2100), 1: (1, 12), 2: (1, 31), 3: (0, 23), 4: (0, 59), 5: (0, 59), 6: (0, 999999999)}
+
 KERNELS = [
+    K("c03::k_posix_mid_ambiguous", pre=_PRE,
+      claims=[("EST5EDT,M3.2.0/0,M11.1.0/0 (switches at local midnight; the fold lies on the previous civil day), years 1900..2100", rule_claim(-18000, -14400, 3, 2, 0, 11, 1, 0))],
+      bounds=_B, split=(0, 8), timeout=240),
+    K("c03::k_posix_neg_ambiguous", pre=_PRE,
+      claims=[("CAT-2WAT-1,M4.1.0,M9.1.0 (negative DST: fold at the start, gap at the end), years 1900..2100", rule_claim(7200, 3600, 4, 1, 7200, 9, 1, 7200))],
+      bounds=_B, split=(0, 8), timeout=240),
     K("c03::k_posix_us_ambiguous", pre=lambda a: And(ref_valid_date(a[0], a[1], a[2]), ref_valid_time(a[3], a[4], a[5], a[6]), in_range(a[0], 1900, 2100)),
       claims=[("years 1900..2100: gap / fold / unambiguous classification with the offsets before and after, exactly at the rule's wall-clock boundaries", amb_claim)],
       bounds={0: (1900, 2100), 1: (1, 12), 2: (1, 31), 3: (0, 23), 4: (0, 59), 5: (0, 59), 6: (0, 999999999)}, split=(0, 8), timeout=240),
